@@ -99,8 +99,12 @@ def stage(ctx, binary, name, mindecl, maxdecl, maxobs, devs, seen, explained):
                 if w in devs:
                     explained.setdefault(w, []).append((c, y))
             continue
-        ctx.violation({"case": c, "got": y["got"], "why": y["why"]},
-                      "histogram `buckets %s` observing %s (half units; 9999=NaN, +-1000=Inf): %s" % (c["decl"], c["obs"], y["why"]))
+        extra = ""
+        if d is not None:
+            extra = "; the model with the open deviations %s predicts bounds %s and steps %s, the real code gives bounds %s and steps %s" % (
+                list(devs), d["maxes"], json.dumps(d["steps"]), y["got"]["maxes"], json.dumps(y["got"]["steps"]))
+        ctx.violation({"case": c, "got": y["got"], "why": y["why"], "model_with_open_deviations": d},
+                      "histogram `buckets %s` observing %s (half units; 9999=NaN, +-1000=Inf): %s%s" % (c["decl"], c["obs"], y["why"], extra))
 
 
 def run(ctx):
